@@ -29,6 +29,8 @@ CONSTANTS
   TrampFlushed = TRUE
   Regen = FALSE
   SavedFrom = "install"
+  RestoreMayFail = FALSE
+  LockByHand = FALSE
   ForeignReuse = FALSE
   AllocAt = "hint"
   UserCalls = TRUE
